@@ -15,6 +15,8 @@ ASSUMPTIONS = ['adbsim is a faithful adbd model', 'completion rules are asserted
 
 def run_seq(params, ch):
     cfg = scen.ops_cfg(params['chunking'], params['maxdata'], params['clse'], params['family'])
+    if params.get('okay'):
+        cfg['okay_order'] = params['okay']
     s = Session(ch, cfg, twin=params['twin'])
     try:
         res = [s.op(('connect',))]
@@ -86,5 +88,9 @@ def parts(tier):
            for d in range(0, 6) for t in ('sync', 'async') for c in ('after-ack', 'eager') for f in ('small', 'extreme')]
     early = Part('device-write-before-okay', sc2, run_early, {'dev-order': None}, what='a device WRTE (sync FAIL) at every legal position among its OKAYs during a multi-WRTE push, '
                  'followed by another operation', bound='%d cases' % len(sc2))
-    return [early, Part('op-sequences', sc, run_seq, {'dev-order': None}, what='operation sequences of length <=%d x device parameters' % k,
+    sc3 = [{'ops': [o], 'family': 'extreme', 'maxdata': 4096, 'chunking': chk, 'clse': 'after-ack', 'twin': t, 'push_size': ps, 'okay': 'choice'}
+           for o in ('list', 'stat', 'pull', 'push') for chk in ('one', 'two', 'bytes') for t in ('sync', 'async') for ps in ((40, 9000) if o == 'push' else (40,))]
+    okord = Part('reply-vs-okay-order', sc3, run_seq, {'dev-order': None, 'okay-order': 2}, what='for every host WRTE the device either acknowledges first (adbd) or lets its reply overtake the OKAY',
+                 bound='<=2 overtaking replies per operation')
+    return [early, okord, Part('op-sequences', sc, run_seq, {'dev-order': None}, what='operation sequences of length <=%d x device parameters' % k,
                       bound='length <=%d%s' % (k, '; length-3 sequences on 3 of the 9 (family, chunking) combinations' if k == 3 else ''))]
